@@ -32,11 +32,8 @@ Definition kind_eqb (a b : kind) : bool :=
    groups: a_name = group name number, a_members = "Properties"                                             *)
 Record arec := mkrec { a_id : nat; a_kind : kind; a_name : nat; a_props : list (nat * nat); a_members : list nat }.
 
-(* stale:   holes that still list (in _children) a data child removed through Workspace.remove_entity
-   stalepg: holes that still list a property group removed through the workspace (also by the cascade of
-            PropertyGroup.remove_properties); both are forgotten at re-open *)
-Record astate := mkst { st : store; recs : list arec; objids : list nat; stale : list nat; stalepg : list nat }.
-Definition init : astate := mkst [] [] [] [] [].
+Record astate := mkst { st : store; recs : list arec; objids : list nat }.
+Definition init : astate := mkst [] [] [].
 
 Inductive ares := AOk (s : astate) | ASoft (e : err) (s : astate) | AHard (e : err).
 
@@ -63,9 +60,8 @@ Definition set_props (p : list (nat * nat)) (r : arec) := mkrec (a_id r) (a_kind
 Definition set_members (m : list nat) (r : arec) := mkrec (a_id r) (a_kind r) (a_name r) (a_props r) m.
 Definition set_name (n : nat) (r : arec) := mkrec (a_id r) (a_kind r) n (a_props r) (a_members r).
 
-Definition with_st (s : astate) (x : store) := mkst x (recs s) (objids s) (stale s) (stalepg s).
-Definition with_recs (s : astate) (x : list arec) := mkst (st s) x (objids s) (stale s) (stalepg s).
-Definition mark_pg (s : astate) (h : nat) := mkst (st s) (recs s) (objids s) (stale s) (h :: stalepg s).
+Definition with_st (s : astate) (x : store) := mkst x (recs s) (objids s).
+Definition with_recs (s : astate) (x : list arec) := mkst (st s) x (objids s).
 
 Definition ids_val (l : list nat) : list val := map (fun i => Some (Z.of_nat i)) l.
 Definition val_id (v : val) : nat := match v with Some z => Z.to_nat z | None => 0 end.
@@ -111,6 +107,13 @@ Definition pg_by_name (s : astate) (h pgname : nat) : option nat :=
 Definition n_depth_groups (s : astate) (h : nat) : nat :=
   length (filter (fun pg => match depth_of s pg with Some _ => true | None => false end) (pgs_of s h)).
 
+(* `while f"DEPTH{label}" in self.get_data_list(): ind += 1` (fuel = number of keys + 1 is enough) *)
+Fixpoint first_free (keys : list (nat * nat)) (k fuel : nat) : nat :=
+  match fuel with
+  | 0 => k
+  | S f => if has_key (depth_label k) keys then first_free keys (S k) f else k
+  end.
+
 Fixpoint pad (vs : list val) (n : nat) : list val :=     (* np.pad(values, (0, n - len), nan) *)
   match n with
   | 0 => vs
@@ -139,7 +142,7 @@ Definition remove_pg_entity (s : astate) (h pg : nat) : res astate :=
   let pgs' := remove_first pg (pgs_of s h) in
   match lput s (Put L_PG h 0 (ids_val pgs')) with
   | Err e => Err e
-  | Ok s1 => Ok (mark_pg (with_recs s1 (del_rec pg (recs s1))) h)
+  | Ok s1 => Ok (with_recs s1 (del_rec pg (recs s1)))
   end.
 
 (* without the depth cascade of ConcatenatedPropertyGroup.remove_properties *)
@@ -257,7 +260,7 @@ Definition api_step (s : astate) (op : aop) : ares :=
   | AddHole h surv =>
       if negb (fresh s h) then AHard Unsupported else
       let s1 := mkst (st s) (recs s ++ [mkrec h KHole h [] []])
-                     (if memb h (objids s) then objids s else objids s ++ [h]) (stale s) (stalepg s) in
+                     (if memb h (objids s) then objids s else objids s ++ [h]) in
       soft_or_hard s
         (match lput s1 (match surv with Some vs => Put L_SURV h 0 vs | None => Del L_SURV h 0 end) with
          | Err e => Err e
@@ -284,7 +287,7 @@ Definition api_step (s : astate) (op : aop) : ares :=
       | Some dv, false =>
           if Nat.ltb (length dv) (length vals) then ASoft ValueError s else      (* Mismatch between input 'depth' and 'values' *)
           if negb (fresh s depid && fresh s did && negb (Nat.eqb depid did)) then AHard Unsupported else
-          let dl := depth_label (n_depth_groups s h) in
+          let dl := depth_label (first_free (keys_of s h) (n_depth_groups s h) (S (length (keys_of s h)))) in
           let r1 := match existing with
                     | Some pg => Ok (s, pg)
                     | None => if fresh s pgid && negb (Nat.eqb pgid depid) && negb (Nat.eqb pgid did)
@@ -294,7 +297,7 @@ Definition api_step (s : astate) (op : aop) : ares :=
           match r1 with
           | Err e => AHard e
           | Ok (s1, pg) =>
-              if has_key dl (keys_of s1 h) then ASoft ValueError s1 else         (* the DEPTH(k) name is taken: group stays, empty *)
+              if has_key dl (keys_of s1 h) then AHard Unsupported else           (* cannot happen: dl was chosen free *)
               match create_data s1 h pg depid dl dv with
               | Err e => AHard e
               | Ok s2 => soft_or_hard s (create_data s2 h pg did name (pad vals (length dv)))
@@ -309,14 +312,8 @@ Definition api_step (s : astate) (op : aop) : ares :=
               | Some dv =>
                   if Nat.ltb (length dv) (length vals) then ASoft ValueError s else
                   if negb (fresh s did) then AHard Unsupported else
-                  (* validate_depth_data returns the FIRST group of the hole whose depths are collocated with dv *)
-                  let target := find (fun pg => match depth_vals s h pg with
-                                                | Some dv' => list_eqb val_eqb dv' dv
-                                                | None => false end) (pgs_of s h) in
-                  match target with
-                  | None => AHard Unsupported
-                  | Some pg => soft_or_hard s (create_data s h pg did name (pad vals (length dv)))
-                  end
+                  (* validate_depth_data skips the groups other than the requested one and finds it collocated with itself *)
+                  soft_or_hard s (create_data s h pg0 did name (pad vals (length dv)))
               end
           end
       end
@@ -348,32 +345,32 @@ Definition api_step (s : astate) (op : aop) : ares :=
       | None => AHard Unsupported
       | Some _ => AOk (with_recs s (upd_rec d (set_name newname) (recs s)))       (* only the record's Name changes *)
       end
-  | RemoveData h d via_ws =>
+  | RemoveData h d _ =>                                  (* Workspace.remove_entity goes through parent.remove_children *)
       if negb (live_hole s h) then AHard Unsupported else
       match rm_data s h d with
       | Err e => AHard e
-      | Ok s1 => AOk (if via_ws then mkst (st s1) (recs s1) (objids s1) (h :: stale s1) (stalepg s1) else s1)
+      | Ok s1 => AOk s1
       end
-  | RemovePG h pg via_ws =>
-      if negb (live_hole s h) then AHard Unsupported else
-      match rm_pg s h pg with
-      | Err e => AHard e
-      | Ok s1 => AOk (if via_ws then mark_pg s1 h
-                      else mkst (st s1) (recs s1) (objids s1) (stale s1) (stalepg s))   (* hole._children.remove(group) *)
-      end
+  | RemovePG h pg _ =>
+      if negb (live_hole s h) then AHard Unsupported else soft_or_hard s (rm_pg s h pg)
   | RemoveHole h _ =>
       if negb (live_hole s h) then AHard Unsupported else
-      if memb h (stale s) then AHard KeyError else                               (* a child removed through the workspace is met again *)
       match rm_pgs s h (pgs_of s h) with
       | Err e => AHard e
       | Ok s1 =>
           match rm_datas s1 h (nodup_nat (map (fun p : nat * nat => snd p) (keys_of s1 h))) with
           | Err e => AHard e
           | Ok s2 =>
-              (* a group that is still listed among the hole's children is removed once more: its row is rewritten *)
-              match (if memb h (stalepg s2) then lput s2 (Put L_PG h 0 (ids_val (pgs_of s2 h))) else Ok s2) with
+              (* the rows of the hole's own arrays *)
+              match lput s2 (Del L_SURV h 0) with
               | Err e => AHard e
-              | Ok s3 => AOk (mkst (st s3) (del_rec h (recs s3)) (remove_first h (objids s3)) (stale s3) (stalepg s3))
+              | Ok s3 => match lput s3 (Del L_TRACE h 0) with
+                         | Err e => AHard e
+                         | Ok s4 => match lput s4 (Del L_PG h 0) with
+                                    | Err e => AHard e
+                                    | Ok s5 => AOk (mkst (st s5) (del_rec h (recs s5)) (remove_first h (objids s5)))
+                                    end
+                         end
               end
           end
       end
@@ -389,7 +386,7 @@ Definition api_step (s : astate) (op : aop) : ares :=
                                     end) (a_props r) (a_props r)) r
         | _ => r
         end in
-      AOk (mkst (st s) (map (fix_hole (recs s)) (recs s)) (objids s) [] [])
+      AOk (mkst (st s) (map (fix_hole (recs s)) (recs s)) (objids s))
   end.
 
 (* ---------------- comparison with an observed run ---------------- *)
